@@ -132,6 +132,9 @@ func (c *Ctx) define(prefix, sort, term string) string {
 	if len(term) < 40 && !strings.Contains(term, "(ite") {
 		return term
 	}
+	if sort == "?" || sort == "TUPLE" {
+		return term
+	}
 	n := c.freshConst(prefix, sort)
 	c.assert(fmt.Sprintf("(= %s %s)", n, term))
 	return n
@@ -432,6 +435,10 @@ func trunc(s string, n int) string {
 // finalAxioms are added when the query text is produced.
 func (c *Ctx) finalAxioms() []string {
 	var out []string
+	if len(c.lateDecls) > 1 {
+		// distinct package-level variables live at distinct addresses
+		out = append(out, "(distinct "+strings.Join(c.lateDecls, " ")+")")
+	}
 	if len(c.strOrder) > 1 {
 		var names []string
 		for _, s := range c.strOrder {
